@@ -20,7 +20,8 @@ fn vec_of<const N: usize>(a: [u8; N]) -> Vec<u8> {
 }
 
 #[kani::proof]
-#[kani::unwind(24)]
+#[kani::unwind(5)]
+#[kani::stub(mls_rs::group::key_schedule::kdf_expand_with_label, mls_rs::verif::derive::kdf_expand_with_label_cut)]
 #[kani::stub(zeroize::optimization_barrier, crate::stubs::optimization_barrier_stub)]
 #[kani::stub(zeroize::volatile_set, crate::stubs::volatile_set_stub)]
 fn c05_ratchet_request_all_generations() {
@@ -76,7 +77,8 @@ fn c05_ratchet_request_all_generations() {
 /// Boundary of the window, exactly: gap 1024 is accepted by the window check (the catch-up loop
 /// itself is cut by an assumption-free bound here: we only ask whether the request is refused up front).
 #[kani::proof]
-#[kani::unwind(24)]
+#[kani::unwind(5)]
+#[kani::stub(mls_rs::group::key_schedule::kdf_expand_with_label, mls_rs::verif::derive::kdf_expand_with_label_cut)]
 #[kani::stub(zeroize::optimization_barrier, crate::stubs::optimization_barrier_stub)]
 #[kani::stub(zeroize::volatile_set, crate::stubs::volatile_set_stub)]
 fn c05_ratchet_request_beyond_window_refused() {
